@@ -4,6 +4,7 @@ strings of the state (node encodings, stored values) collide under `H`.  Core Le
 -/
 import Gossamer.Lib.TrieProofSound
 import Gossamer.Lib.TrieLemmas
+import Gossamer.Lib.TrieBytes
 namespace Gossamer.C05
 open Gossamer Gossamer.TrieCodec Gossamer.Bridge
 
@@ -484,5 +485,580 @@ theorem load_inline (ver : Ver) (H : Bytes → Bytes) (hH : ∀ m, (H m).length 
       simp only [List.mem_map, List.mem_finRange, true_and] at hc
       obtain ⟨i, rfl⟩ := hc
       exact vkid_not_stub_of_short ver H hH pk v cs hw.2.2 hl i mv
+
+/-! ### reading the key from the rebuilt trie -/
+
+theorem lookup_branch_some {pk : Nibs} {v : Option Bytes} {cs : Nib → Trie} {kn : Nibs} {x : Bytes}
+    (h : Trie.lookup (.branch pk v cs) kn = some x) :
+    (kn = pk ∧ v = some x) ∨ ∃ i rest, kn = pk ++ i :: rest ∧ Trie.lookup (cs i) rest = some x := by
+  simp only [Trie.lookup] at h
+  split at h
+  · rename_i hk; exact .inl ⟨hk, h⟩
+  · split at h
+    · rename_i hne hp
+      obtain ⟨r, rfl⟩ := isPrefixOf_iff.mp hp
+      simp only [List.drop_left'] at h
+      cases r with
+      | nil => simp at h
+      | cons i rest =>
+        simp only [drop_length_append] at h
+        exact .inr ⟨i, rest, rfl, h⟩
+    · cases h
+
+theorem allEmpty_false_of_getD : ∀ (kids : List Node) (i : Nat),
+    (kids.getD i .empty).isEmpty = false → allEmpty kids = false := by
+  intro kids
+  induction kids with
+  | nil => intro i h; simp [Node.isEmpty] at h
+  | cons c cs ih =>
+    intro i h
+    cases i with
+    | zero =>
+      simp only [List.getD_cons_zero] at h
+      simp [allEmpty, h]
+    | succ i =>
+      simp only [List.getD_cons_succ] at h
+      simp [allEmpty, ih i h]
+
+/-- the value of a node readable through the proof database: `leafValue` returns it -/
+theorem leafValue_complete {ver : Ver} {H : Bytes → Bytes} {db : Pairs} {x : Bytes}
+    (h : mustBeHashed ver x = true → mapGet db (H x) = some x) :
+    leafValue db ((some x).map (storedValue ver H)) (hashedFlag ver (some x)) = some x := by
+  simp only [Option.map_some, hashedFlag, leafValue, storedValue]
+  by_cases hm : mustBeHashed ver x = true
+  · simp [hm, h hm]
+  · have hm' : mustBeHashed ver x = false := by simpa using hm
+    simp [hm']
+
+theorem mem_valueNode {ver : Ver} {x : Bytes} (h : mustBeHashed ver x = true) :
+    x ∈ valueNode ver (some x) := by
+  simp [valueNode, h]
+
+/-- `walk` lists the node itself when its encoding is not inlined -/
+theorem walk_self (ver : Ver) (H : Bytes → Bytes) (c : Trie) (k : Nibs) (d : List Bytes)
+    (hn : c.isNil = false) (hl : 32 ≤ (encodeNode ver H c).length)
+    (h : walk ver H false c k = some d) : encodeNode ver H c ∈ d := by
+  have hge : decide ((encodeNode ver H c).length ≥ 32) = true := by simpa using hl
+  cases c with
+  | nil => simp [Trie.isNil] at hn
+  | leaf pk v =>
+    simp only [walk, Bool.false_or, hge, if_true] at h
+    split at h
+    · simp only [Option.some.injEq] at h; subst h; simp
+    · cases h
+  | branch pk v cs =>
+    simp only [walk, Bool.false_or, hge, if_true] at h
+    split at h
+    · simp only [Option.some.injEq] at h; subst h; simp
+    · split at h
+      · cases h
+      · split at h
+        · split at h
+          · simp only [Option.some.injEq] at h; subst h; simp
+          · cases h
+        · cases h
+
+theorem path_get (ver : Ver) (H : Bytes → Bytes) (hH : ∀ m, (H m).length = 32) (strict : Bool)
+    (T : Trie) (hwT : WFT T) (hS : InjS H (Honest ver H T)) (m db : Pairs) :
+    ∀ (t : Trie) (kn : Nibs) (isRoot : Bool) (ns : List Bytes) (x : Bytes) (f : Nat) (P : Node),
+      WFT t → Within t T → walk ver H isRoot t kn = some ns → Trie.lookup t kn = some x →
+      (∀ e ∈ ns, mapGet db (H e) = some e) →
+      (∀ e ∈ ns, e ≠ encodeNode ver H T → mapGet m (H e) = some e) →
+      loadF strict m f (viewT ver H t) = .ok P → pget db P (nibB kn) = some x := by
+  intro t
+  induction t with
+  | nil => intro kn isRoot ns x f P _ _ _ hl; simp at hl
+  | leaf pk v =>
+    intro kn isRoot ns x f P _ _ hwalk hl hdb _ hload
+    simp only [Trie.lookup_leaf] at hl
+    split at hl
+    · rename_i hk
+      simp only [Option.some.injEq] at hl
+      subst hk; subst hl
+      cases f with
+      | zero => simp [loadF] at hload
+      | succ f =>
+        simp only [viewT_leaf, loadF, Except.ok.injEq] at hload
+        subst hload
+        simp only [walk, beq_self_eq_true, Bool.or_true, if_true, Option.some.injEq] at hwalk
+        simp only [pget, if_true]
+        have := leafValue_complete (ver := ver) (H := H) (db := db) (x := v) (fun hm =>
+          hdb v (by rw [← hwalk]; exact List.mem_append_right _ (mem_valueNode hm)))
+        simpa [hashedFlag] using this
+    · cases hl
+  | branch pk v cs ih =>
+    intro kn isRoot ns x f P hw hin hwalk hl hdb hmm hload
+    cases f with
+    | zero => simp [loadF] at hload
+    | succ f =>
+      rw [viewT_branch ver H hH pk v cs hw.2.2] at hload
+      simp only [loadF] at hload
+      cases hk : loadKids strict m (loadF strict m f) ((List.finRange 16).map fun i => vkid ver H (cs i)) with
+      | error e => simp [hk] at hload
+      | ok kids' =>
+        simp only [hk, Except.ok.injEq] at hload
+        rcases lookup_branch_some hl with ⟨rfl, hv⟩ | ⟨i, rest, rfl, hchild⟩
+        · -- the key ends at this branch
+          subst hv
+          simp only [walk, beq_self_eq_true, Bool.or_true, if_true, Option.some.injEq] at hwalk
+          have hval := leafValue_complete (ver := ver) (H := H) (db := db) (x := x) (fun hm =>
+            hdb x (by rw [← hwalk]; exact List.mem_append_right _ (mem_valueNode hm)))
+          rw [← hload]
+          unfold rebuild
+          split
+          · simp only [pget, if_true]; exact hval
+          · simp only [pget, beq_self_eq_true, Bool.or_true, if_true]; exact hval
+        · -- the key continues in child `i`
+          have hne : (pk ++ i :: rest).length ≠ 0 := by simp
+          have hkp : ((pk : Nibs) == pk ++ i :: rest) = false := by
+            simpa using (append_cons_ne_self pk i rest).symm
+          have hlen : (pk ++ i :: rest).length > pk.length := by simp
+          simp only [walk, hne, hkp, decide_false, Bool.or_self, Bool.false_eq_true, if_false, hlen,
+            decide_true, Bool.not_true, Trie.lcpLen_prefix, drop_length_append] at hwalk
+          cases hd : walk ver H false (cs i) rest with
+          | none => simp [hd] at hwalk
+          | some deeper =>
+            simp only [hd, Option.some.injEq] at hwalk
+            have hsub : ∀ e ∈ deeper, e ∈ ns := fun e he => by
+              rw [← hwalk]; exact List.mem_append_right _ he
+            have hnil : (cs i).isNil = false := by
+              cases hc : cs i with
+              | nil => rw [hc] at hchild; simp at hchild
+              | leaf _ _ => rfl
+              | branch _ _ _ => rfl
+            -- the rebuilt child answers the rest of the key
+            have hstep := loadKids_spec strict m (loadF strict m f) _ _ hk i.val
+            rw [getD_finRange_map] at hstep
+            have hkid : pget db (kids'.getD i.val .empty) (nibB rest) = some x := by
+              by_cases hshort : (encodeNode ver H (cs i)).length < 32
+              · -- inlined: kept as decoded
+                have hvk : vkid ver H (cs i) = viewT ver H (cs i) := by simp [vkid, hnil, hshort]
+                rw [hvk] at hstep
+                rw [kidStep_nonstub (viewT_not_stub ver H hH _ hnil (hw.2.2 i)) hstep]
+                exact ih i rest false deeper x 1 _ (hw.2.2 i) (.inr (hin.child i)) hd hchild
+                  (fun e he => hdb e (hsub e he)) (fun e he hne => hmm e (hsub e he) hne)
+                  (load_inline ver H hH strict m _ (hw.2.2 i) hshort)
+              · -- referenced by hash: its encoding is an item of the proof
+                have hvk : vkid ver H (cs i) = .stub (H (encodeNode ver H (cs i))) := by
+                  simp [vkid, hnil, hshort]
+                rw [hvk] at hstep
+                simp only [KidStep] at hstep
+                have hself := walk_self ver H (cs i) rest deeper hnil (by omega) hd
+                have hget := hmm _ (hsub _ hself)
+                  (enc_ne_of_pdesc ver H hH T hwT hS _ (hin.child i))
+                rcases hstep with ⟨hnone, _⟩ | ⟨enc, n, hg, hdec, _, hrec⟩
+                · rw [hget] at hnone; cases hnone
+                · rw [hget] at hg
+                  simp only [Option.some.injEq] at hg
+                  subst hg
+                  rw [decode_encodeNode ver H hH strict _ (hw.2.2 i)] at hdec
+                  simp only [Out.ok.injEq] at hdec
+                  subst hdec
+                  exact ih i rest false deeper x f _ (hw.2.2 i) (.inr (hin.child i)) hd hchild
+                    (fun e he => hdb e (hsub e he)) (fun e he hne => hmm e (hsub e he) hne) hrec
+            -- so the branch kept a child and stays a branch
+            have hnotempty : (kids'.getD i.val .empty).isEmpty = false := by
+              cases hc : kids'.getD i.val .empty with
+              | empty => rw [hc] at hkid; simp [pget] at hkid
+              | stub _ => rfl
+              | leaf _ _ _ => rfl
+              | branch _ _ _ _ => rfl
+            rw [← hload]
+            unfold rebuild
+            rw [allEmpty_false_of_getD kids' i.val hnotempty]
+            simp only [Bool.false_and, Bool.false_eq_true, if_false, pget, nibB_length]
+            have e2 : (nibB pk == nibB (pk ++ i :: rest)) = false := by
+              rw [Bool.eq_false_iff]; intro h
+              have := nibB_inj (by simpa using h)
+              exact append_cons_ne_self pk i rest this.symm
+            simp only [hne, e2, decide_false, Bool.or_self, Bool.false_eq_true, if_false, nibB_isPrefixOf,
+              isPrefixOf_append_self, Bool.not_true, nibB_drop, drop_length_append, nibB_cons,
+              pgetKid_eq, nb_toNat]
+            exact hkid
+
+/-! ### the items `Generate` returns -/
+
+theorem walk_honest (ver : Ver) (H : Bytes → Bytes) :
+    ∀ (t : Trie) (isRoot : Bool) (kn : Nibs) (ns : List Bytes), walk ver H isRoot t kn = some ns →
+      ∀ e ∈ ns, Honest ver H t e := by
+  intro t
+  induction t with
+  | nil =>
+    intro isRoot kn ns h e he
+    simp only [walk] at h
+    split at h
+    · simp only [Option.some.injEq] at h; subst h; cases he
+    · cases h
+  | leaf pk v =>
+    intro isRoot kn ns h e he
+    simp only [walk] at h
+    split at h
+    · simp only [Option.some.injEq] at h; subst h
+      rcases List.mem_append.mp he with he | he
+      · split at he
+        · simp only [List.mem_singleton] at he; exact .inl he
+        · cases he
+      · simp only [valueNode] at he
+        split at he
+        · simp only [List.mem_singleton] at he; exact .inr he
+        · cases he
+    · cases h
+  | branch pk v cs ih =>
+    intro isRoot kn ns h e he
+    have hme : ∀ x ∈ (if isRoot || decide ((encodeNode ver H (.branch pk v cs)).length ≥ 32)
+        then [encodeNode ver H (.branch pk v cs)] else []), Honest ver H (.branch pk v cs) x := by
+      intro x hx
+      split at hx
+      · simp only [List.mem_singleton] at hx; exact .inl hx
+      · cases hx
+    simp only [walk] at h
+    split at h
+    · simp only [Option.some.injEq] at h; subst h
+      rcases List.mem_append.mp he with he | he
+      · exact hme e he
+      · cases v with
+        | none => simp [valueNode] at he
+        | some x =>
+          simp only [valueNode] at he
+          split at he
+          · simp only [List.mem_singleton] at he; exact .inr (.inl (by rw [he]))
+          · cases he
+    · split at h
+      · cases h
+      · split at h
+        · rename_i i rest _
+          cases hd : walk ver H false (cs i) rest with
+          | none => simp [hd] at h
+          | some deeper =>
+            simp only [hd, Option.some.injEq] at h; subst h
+            rcases List.mem_append.mp he with he | he
+            · exact hme e he
+            · exact honest_child (ih i false rest deeper hd e he)
+        · cases h
+
+theorem walk_root_self (ver : Ver) (H : Bytes → Bytes) (t : Trie) (kn : Nibs) (ns : List Bytes)
+    (hn : t.isNil = false) (h : walk ver H true t kn = some ns) : encodeNode ver H t ∈ ns := by
+  cases t with
+  | nil => simp [Trie.isNil] at hn
+  | leaf pk v =>
+    simp only [walk, Bool.true_or, if_true] at h
+    split at h
+    · simp only [Option.some.injEq] at h; subst h; simp
+    · cases h
+  | branch pk v cs =>
+    simp only [walk, Bool.true_or, if_true] at h
+    split at h
+    · simp only [Option.some.injEq] at h; subst h; simp
+    · split at h
+      · cases h
+      · split at h
+        · split at h
+          · simp only [Option.some.injEq] at h; subst h; simp
+          · cases h
+        · cases h
+
+/-- the Merkle value identifies an honest string -/
+theorem mv_inj {H : Bytes → Bytes} (hH : ∀ m, (H m).length = 32) {S : Bytes → Prop} (hS : InjS H S)
+    {a b : Bytes} (ha : S a) (hb : S b) (h : Gossamer.merkleValue H a = Gossamer.merkleValue H b) : a = b := by
+  unfold Gossamer.merkleValue at h
+  by_cases hla : a.length < 32 <;> by_cases hlb : b.length < 32
+  · simpa [hla, hlb] using h
+  · simp only [hla, hlb, if_true, if_false] at h
+    have := hH b; rw [← h] at this; omega
+  · simp only [hla, hlb, if_true, if_false] at h
+    have := hH a; rw [h] at this; omega
+  · simp only [hla, hlb, if_false] at h
+    exact hS a b ha hb h
+
+/-- invariant of the deduplication state: `seen` holds exactly the Merkle values of `out` -/
+def DInv (H : Bytes → Bytes) (st : List Bytes × List Bytes) : Prop :=
+  ∀ x ∈ st.1, ∃ e ∈ st.2, Gossamer.merkleValue H e = x
+
+theorem dedup_spec (H : Bytes → Bytes) : ∀ (ns : List Bytes) (st : List Bytes × List Bytes),
+    (∀ e ∈ st.2, e ∈ (dedupInto H st ns).2) ∧
+    (∀ x ∈ st.1, x ∈ (dedupInto H st ns).1) ∧
+    (∀ e ∈ ns, Gossamer.merkleValue H e ∈ (dedupInto H st ns).1) ∧
+    (DInv H st → DInv H (dedupInto H st ns)) ∧
+    (∀ e ∈ (dedupInto H st ns).2, e ∈ st.2 ∨ e ∈ ns) := by
+  intro ns
+  induction ns with
+  | nil =>
+    intro st
+    obtain ⟨seen, out⟩ := st
+    simp [dedupInto]
+  | cons a r ih =>
+    intro st
+    obtain ⟨seen, out⟩ := st
+    simp only [dedupInto]
+    split
+    · rename_i hc
+      obtain ⟨h1, h2, h3, h4, h5⟩ := ih (seen, out)
+      refine ⟨h1, h2, ?_, h4, ?_⟩
+      · intro e he
+        rcases List.mem_cons.mp he with rfl | he
+        · exact h2 _ (by simpa using hc)
+        · exact h3 e he
+      · intro e he
+        rcases h5 e he with h | h
+        · exact .inl h
+        · exact .inr (List.mem_cons_of_mem _ h)
+    · obtain ⟨h1, h2, h3, h4, h5⟩ := ih (Gossamer.merkleValue H a :: seen, out ++ [a])
+      refine ⟨fun e he => h1 e (by simp [he]), fun x hx => h2 x (by simp [hx]), ?_, ?_, ?_⟩
+      · intro e he
+        rcases List.mem_cons.mp he with rfl | he
+        · exact h2 _ (by simp)
+        · exact h3 e he
+      · intro hinv
+        apply h4
+        intro x hx
+        rcases List.mem_cons.mp hx with rfl | hx
+        · exact ⟨a, by simp, rfl⟩
+        · obtain ⟨e, he, hex⟩ := hinv x hx
+          exact ⟨e, by simp [he], hex⟩
+      · intro e he
+        rcases h5 e he with h | h
+        · rcases List.mem_append.mp h with h | h
+          · exact .inl h
+          · simp only [List.mem_singleton] at h; exact .inr (by simp [h])
+        · exact .inr (List.mem_cons_of_mem _ h)
+
+theorem generateFrom_spec (ver : Ver) (H : Bytes → Bytes) (t : Trie) :
+    ∀ (ks : List Bytes) (st : List Bytes × List Bytes) (N : List Bytes),
+      generateFrom ver H t st ks = some N → DInv H st →
+      (∀ e ∈ st.2, e ∈ N) ∧
+      (∀ x ∈ st.1, ∃ e ∈ N, Gossamer.merkleValue H e = x) ∧
+      (∀ k ∈ ks, ∃ ns, walk ver H true t (Trie.keyLEToNibbles k) = some ns ∧
+        ∀ e ∈ ns, ∃ e' ∈ N, Gossamer.merkleValue H e' = Gossamer.merkleValue H e) ∧
+      (∀ e ∈ N, e ∈ st.2 ∨ ∃ k ∈ ks, ∃ ns, walk ver H true t (Trie.keyLEToNibbles k) = some ns ∧ e ∈ ns) := by
+  intro ks
+  induction ks with
+  | nil =>
+    intro st N h hinv
+    simp only [generateFrom, Option.some.injEq] at h
+    subst h
+    exact ⟨fun e he => he, hinv, fun k hk => (by cases hk), fun e he => .inl he⟩
+  | cons k ks ih =>
+    intro st N h hinv
+    simp only [generateFrom] at h
+    cases hw : walk ver H true t (Trie.keyLEToNibbles k) with
+    | none => simp [hw] at h
+    | some ns =>
+      simp only [hw] at h
+      obtain ⟨d1, d2, d3, d4, d5⟩ := dedup_spec H ns st
+      obtain ⟨g1, g2, g3, g4⟩ := ih _ N h (d4 hinv)
+      refine ⟨fun e he => g1 e (d1 e he), fun x hx => g2 x (d2 x hx), ?_, ?_⟩
+      · intro k' hk'
+        rcases List.mem_cons.mp hk' with rfl | hk'
+        · exact ⟨ns, hw, fun e he => g2 _ (d3 e he)⟩
+        · exact g3 k' hk'
+      · intro e he
+        rcases g4 e he with h | ⟨k', hk', ns', hw', he'⟩
+        · rcases d5 e h with h | h
+          · exact .inl h
+          · exact .inr ⟨k, by simp, ns, hw, h⟩
+        · exact .inr ⟨k', List.mem_cons_of_mem _ hk', ns', hw', he'⟩
+
+/-- every item of a generated proof is an honest string of the state; for each requested key the
+    items of its walk are all there -/
+theorem generate_spec (ver : Ver) (H : Bytes → Bytes) (hH : ∀ m, (H m).length = 32) (t : Trie)
+    (hS : InjS H (Honest ver H t)) (ks : List Bytes) (N : List Bytes)
+    (h : generate ver H t ks = some N) :
+    (∀ e ∈ N, Honest ver H t e) ∧
+    (∀ k ∈ ks, ∃ ns, walk ver H true t (Trie.keyLEToNibbles k) = some ns ∧ ∀ e ∈ ns, e ∈ N) := by
+  obtain ⟨_, _, g3, g4⟩ := generateFrom_spec ver H t ks ([], []) N h (by intro x hx; cases hx)
+  have hhon : ∀ e ∈ N, Honest ver H t e := by
+    intro e he
+    rcases g4 e he with h | ⟨k, _, ns, hw, hens⟩
+    · cases h
+    · exact walk_honest ver H t true _ ns hw e hens
+  refine ⟨hhon, fun k hk => ?_⟩
+  obtain ⟨ns, hw, hall⟩ := g3 k hk
+  refine ⟨ns, hw, fun e he => ?_⟩
+  obtain ⟨e', he', hmv⟩ := hall e he
+  have := mv_inj hH hS (hhon e' he') (walk_honest ver H t true _ ns hw e he) hmv
+  rw [← this]; exact he'
+
+/-! ### the root of an honest proof -/
+
+theorem scan_complete (strict : Bool) (root : Bytes) (n : Node) (hn : n ≠ .empty) :
+    ∀ (ps acc : Pairs), (∃ p ∈ ps, p.1 = root) →
+      (∀ p ∈ ps, p.1 = root → decode strict p.2 = .ok n) →
+      ∃ m, scan strict root ps acc = .found n m ∧
+        (∀ q ∈ acc, q ∈ m) ∧ (∀ q ∈ ps, q.1 ≠ root → q ∈ m) ∧ (∀ q ∈ m, q ∈ acc ∨ q ∈ ps) ∧
+        m.length + 1 = acc.length + ps.length := by
+  intro ps
+  induction ps with
+  | nil => intro acc h _; obtain ⟨p, hp, _⟩ := h; cases hp
+  | cons p rest ih =>
+    intro acc hex hdec
+    simp only [scan]
+    by_cases hp : p.1 = root
+    · have hb : (p.1 == root) = true := by simpa using hp
+      simp only [hb, if_true, hdec p (by simp) hp]
+      have hfound : (match n with
+          | .empty => Scan.emptyTrie
+          | n => Scan.found n (acc.reverse ++ rest)) = Scan.found n (acc.reverse ++ rest) := by
+        cases n with
+        | empty => exact absurd rfl hn
+        | stub _ => rfl
+        | leaf _ _ _ => rfl
+        | branch _ _ _ _ => rfl
+      refine ⟨acc.reverse ++ rest, ?_, ?_, ?_, ?_, ?_⟩
+      · cases n with
+        | empty => exact absurd rfl hn
+        | stub _ => rfl
+        | leaf _ _ _ => rfl
+        | branch _ _ _ _ => rfl
+      · intro q hq; simp [hq]
+      · intro q hq hne
+        rcases List.mem_cons.mp hq with rfl | hq
+        · exact absurd hp hne
+        · simp [hq]
+      · intro q hq
+        simp only [List.mem_append, List.mem_reverse] at hq
+        rcases hq with hq | hq
+        · exact .inl hq
+        · exact .inr (by simp [hq])
+      · simp; omega
+    · have hb : (p.1 == root) = false := by simpa using hp
+      simp only [hb, Bool.false_eq_true, if_false]
+      have hex' : ∃ q ∈ rest, q.1 = root := by
+        obtain ⟨q, hq, hqr⟩ := hex
+        rcases List.mem_cons.mp hq with rfl | hq
+        · exact absurd hqr hp
+        · exact ⟨q, hq, hqr⟩
+      obtain ⟨m, h1, h2, h3, h4, h5⟩ := ih (p :: acc) hex' (fun q hq => hdec q (by simp [hq]))
+      refine ⟨m, h1, fun q hq => h2 q (by simp [hq]), ?_, ?_, ?_⟩
+      · intro q hq hne
+        rcases List.mem_cons.mp hq with rfl | hq
+        · exact h2 _ (by simp)
+        · exact h3 q hq hne
+      · intro q hq
+        rcases h4 q hq with h | h
+        · rcases List.mem_cons.mp h with rfl | h
+          · exact .inr (by simp)
+          · exact .inl h
+        · exact .inr (by simp [h])
+      · simp only [List.length_cons] at h5 ⊢; omega
+
+/-- looking an honest item up by its hash returns that item -/
+theorem mapGet_avail {H : Bytes → Bytes} {S : Bytes → Prop} (hS : InjS H S) {m : Pairs}
+    (hm : MapOK H S m) {e : Bytes} (he : S e) (hmem : (H e, e) ∈ m) : mapGet m (H e) = some e := by
+  have hs := mapGet_isSome_of_mem hmem
+  cases hg : mapGet m (H e) with
+  | none => rw [hg] at hs; cases hs
+  | some e' =>
+    have := mapGet_some hm hg
+    rw [hS e' e this.2 he this.1]
+
+/-! ### completeness of `Verify` on the proof `Generate` returns, under an injective hash -/
+
+theorem verify_complete_inj (ver : Ver) (H : Bytes → Bytes) (hH : ∀ m, (H m).length = 32)
+    (strict : Bool) (T : Trie) (hw : WFT T) (hS : InjS H (Honest ver H T))
+    (ks : List Bytes) (N : List Bytes) (hgen : generate ver H T ks = some N)
+    (k v : Bytes) (hk : k ∈ ks) (hlook : Trie.lookup T (toNibs k) = some v) :
+    verify H strict N (hashTrie ver H T) k v = .ok := by
+  obtain ⟨hhon, hwalks⟩ := generate_spec ver H hH T hS ks N hgen
+  obtain ⟨ns, hwalk, hns⟩ := hwalks k hk
+  rw [Gossamer.keyLEToNibbles_eq] at hwalk
+  have hnil : T.isNil = false := by
+    cases T with
+    | nil => simp at hlook
+    | leaf _ _ => rfl
+    | branch _ _ _ => rfl
+  have hrootN : encodeNode ver H T ∈ N := hns _ (walk_root_self ver H T _ ns hnil hwalk)
+  -- the digest/encoding pairs
+  have hpairs : MapOK H (Honest ver H T) (pairsOf H N) := by
+    intro p hp
+    simp only [pairsOf, List.mem_map] at hp
+    obtain ⟨e, he, rfl⟩ := hp
+    exact ⟨rfl, hhon e he⟩
+  have hmemp : ∀ e ∈ N, (H e, e) ∈ pairsOf H N := fun e he => by
+    simp only [pairsOf, List.mem_map]; exact ⟨e, he, rfl⟩
+  -- the root is found
+  have hscan := scan_complete strict (hashTrie ver H T) (viewT ver H T) (viewT_ne_empty ver H T hnil)
+    (pairsOf H N) [] ⟨_, hmemp _ hrootN, rfl⟩ (by
+      intro p hp hpr
+      have hp2 := hpairs p hp
+      have : p.2 = encodeNode ver H T :=
+        hS _ _ hp2.2 (honest_self ver H T) (by rw [← hp2.1, hpr]; rfl)
+      rw [this]
+      exact decode_encodeNode ver H hH strict T hw)
+  obtain ⟨m, hsc, _, hin, hsub, hlen⟩ := hscan
+  have hm : MapOK H (Honest ver H T) m := by
+    intro q hq
+    rcases hsub q hq with h | h
+    · cases h
+    · exact hpairs q h
+  -- every item other than the root is still in the map
+  have hinm : ∀ e ∈ N, e ≠ encodeNode ver H T → (H e, e) ∈ m := by
+    intro e he hne
+    apply hin _ (hmemp e he)
+    intro hroot
+    exact hne (hS _ _ (hhon e he) (honest_self ver H T) hroot)
+  -- loading succeeds
+  have hfits : Fits ver H (mapItems m) ((pairsOf H N).length + 1) T := by
+    have h1 := fits_len ver H hH (mapItems m).length (mapItems m) T (Nat.le_refl _) hw hS
+    refine fits_mono ver H _ T _ _ ?_ h1
+    simp only [mapItems, List.length_map, List.length_nil, Nat.zero_add] at hlen ⊢
+    omega
+  obtain ⟨P, hload⟩ := load_ok ver H hH strict T hS m hm T _ hw (.inl rfl) hfits
+  -- the key is read from the rebuilt trie
+  have hget := path_get ver H hH strict T hw hS m (pairsOf H N) T (toNibs k) true ns v _ P hw (.inl rfl)
+    hwalk hlook
+    (fun e he => mapGet_avail hS hpairs (hhon e (hns e he)) (hmemp e (hns e he)))
+    (fun e he hne => mapGet_avail hS hm (hhon e (hns e he)) (hinm e (hns e he) hne))
+    hload
+  unfold verify verifyP
+  have hne : (pairsOf H N).isEmpty = false := by
+    cases hN : N with
+    | nil => rw [hN] at hrootN; cases hrootN
+    | cons _ _ => simp [pairsOf]
+  rw [hne]
+  simp only [Bool.false_eq_true, if_false, hsc, hload, Bridge.keyLEToNibbles_eq, hget]
+  simp
+
+/-! ### `Generate` succeeds on present keys -/
+
+theorem walk_present (ver : Ver) (H : Bytes → Bytes) :
+    ∀ (t : Trie) (isRoot : Bool) (kn : Nibs) (x : Bytes), Trie.lookup t kn = some x →
+      ∃ ns, walk ver H isRoot t kn = some ns := by
+  intro t
+  induction t with
+  | nil => intro _ kn x h; simp at h
+  | leaf pk v =>
+    intro isRoot kn x h
+    simp only [Trie.lookup_leaf] at h
+    split at h
+    · rename_i hk; subst hk
+      simp only [walk, beq_self_eq_true, Bool.or_true, if_true]
+      exact ⟨_, rfl⟩
+    · cases h
+  | branch pk v cs ih =>
+    intro isRoot kn x h
+    rcases lookup_branch_some h with ⟨rfl, _⟩ | ⟨i, rest, rfl, hchild⟩
+    · simp only [walk, beq_self_eq_true, Bool.or_true, if_true]
+      exact ⟨_, rfl⟩
+    · obtain ⟨deeper, hd⟩ := ih i false rest x hchild
+      have hne : (pk ++ i :: rest).length ≠ 0 := by simp
+      have hkp : ((pk : Nibs) == pk ++ i :: rest) = false := by
+        simpa using (append_cons_ne_self pk i rest).symm
+      have hlen : (pk ++ i :: rest).length > pk.length := by simp
+      simp only [walk, hne, hkp, decide_false, Bool.or_self, Bool.false_eq_true, if_false, hlen,
+        decide_true, Bool.not_true, Trie.lcpLen_prefix, drop_length_append, hd]
+      exact ⟨_, rfl⟩
+
+theorem generateFrom_present (ver : Ver) (H : Bytes → Bytes) (t : Trie) :
+    ∀ (ks : List Bytes) (st : List Bytes × List Bytes),
+      (∀ k ∈ ks, ∃ x, Trie.lookup t (toNibs k) = some x) → ∃ N, generateFrom ver H t st ks = some N := by
+  intro ks
+  induction ks with
+  | nil => intro st _; exact ⟨_, rfl⟩
+  | cons k ks ih =>
+    intro st h
+    obtain ⟨x, hx⟩ := h k (by simp)
+    obtain ⟨ns, hns⟩ := walk_present ver H t true (toNibs k) x hx
+    obtain ⟨N, hN⟩ := ih (dedupInto H st ns) (fun k' hk' => h k' (by simp [hk']))
+    exact ⟨N, by simp only [generateFrom, Gossamer.keyLEToNibbles_eq, hns, hN]⟩
 
 end Gossamer.C05
